@@ -596,6 +596,37 @@ Definition retained_eqb (p q : proto) : bool :=
   Bool.eqb (p_client p) (p_client q) && Bool.eqb (p_genesis p) (p_genesis q) && Bool.eqb (p_evmin p) (p_evmin q) &&
   (p_valset p =? p_valset q) && zlist_eqb (p_optin p) (p_optin q) && zlist_eqb (p_extra p) (p_extra q).
 
+(* outcome of a launch attempt on an initialized consumer: launched with its artefacts, or the fallback *)
+Definition launched (r : consumer) (o : lora) : consumer :=
+  set_phase 3 (set_proto (p_set_launch (lo_size o) (c_proto r)) r).
+Definition attempt (r : consumer) (o : lora) : consumer :=
+  if lora_good o then launched r o else fallback r.
+
+(* the consumers BeginBlock attempts to launch / processes for removal at time [now] *)
+Definition attempted (s : state) (now : Z) : list Z := firstn limit (due (s_spawnq s) now).
+Definition removal_due (s : state) (now : Z) : list Z := firstn limit (due (s_remq s) now).
+
+(* histories *)
+Definition reach (U : Z) (ops : list op) : state := fold_left (step U) ops init_state.
+Definition creates (U : Z) (s : state) (o : op) : bool :=
+  match o with OCreate _ _ _ _ => result U s o =? 0 | _ => false end.
+(* the block time after a history, and histories whose block times do not decrease *)
+Fixpoint clock (now : Z) (ops : list op) : Z :=
+  match ops with
+  | [] => now
+  | OBegin t _ :: r => clock t r
+  | _ :: r => clock now r
+  end.
+Fixpoint monotone (now : Z) (ops : list op) : Prop :=
+  match ops with
+  | [] => True
+  | OBegin t _ :: r => now <= t /\ monotone t r
+  | _ :: r => monotone now r
+  end.
+(* ops that legitimately write protocol state of consumer c outside the lifecycle *)
+Definition targets (o : op) (c : Z) : bool :=
+  match o with ODecorate c' _ => c' =? c | OChannel c' => c' =? c | _ => false end.
+
 (* ------------------------------------------------------------------ monitor
    The clauses of C10 / C11 evaluated on the implementation's observations (same shape as the output of [run]).
    Clause numbers:
@@ -650,9 +681,6 @@ Definition mon_snapshot (s : state) : list Z :=
             (s_cons s)) ++
   flag 4 (forallb (fun r => negb (c_phase r =? 3) || (p_genesis (c_proto r) && p_client (c_proto r))) (s_cons s)) ++
   flag 8 (forallb (fun r => negb (c_phase r =? 5) || proto_empty_core (c_proto r)) (s_cons s)).
-
-Definition targets (o : op) (c : Z) : bool :=
-  match o with ODecorate c' _ => c' =? c | OChannel c' => c' =? c | _ => false end.
 
 (* clauses about one step; [stops] = first stop time per stopped consumer; returns the new [stops] too *)
 Definition mon_step (U now qc : Z) (stops : list (Z * Z)) (o : op) (code : Z) (a b : state) : list Z * list (Z * Z) :=
